@@ -82,6 +82,10 @@ class MoveProp(core.Prop):
                      "exhaustively on small grids, then seeded random op sequences; each real process_action call is one "
                      "case (pre-world, call, post-world); distinct by (world, call); non-trivial = destination inside "
                      "the grid and different from the source")
+        self.rule += ("; histories and representations on purpose: the overlap table of the live grid is replaced through "
+                      "its setter between calls, grids built with another table first, actions as numpy integers of "
+                      "several widths; a share of BIG worlds (up to 18x18, 15 agents, 12 encodings, long moves), crowds "
+                      "of 13..18 agents on one cell, corridors of 130..300 cells")
         self.assumptions = ["health is an exact rational (dyadic test values)",
                             "worlds are built by setting agent state directly and placing active agents through Grid.place"]
 
